@@ -161,6 +161,30 @@ func (g *lsGen) c06Attach(k, typ string) {
 	g.try(bs("expire", k, itoa(n)))
 }
 
+// c06AttachTwin gives k and k2 (k first) the same time-to-live through the same
+// command form, back to back: whatever instant inside the one-second window the
+// server takes as a key's deadline, k's is not later than k2's.  Probing k2 and
+// then k inside the window with arbitrary commands shows a server in which
+// different commands disagree about when a key has gone.
+func (g *lsGen) c06AttachTwin(k, typ, k2, typ2 string) {
+	r := g.r
+	n := pick(r, []int{1, 1, 2, 3})
+	form := pick(r, []string{"expire", "expire", "setex", "set-ex"})
+	if typ != "string" || typ2 != "string" {
+		form = "expire"
+	}
+	for _, kk := range []string{k, k2} {
+		switch form {
+		case "expire":
+			g.try(bs("expire", kk, itoa(n)))
+		case "setex":
+			g.try(bs("setex", kk, itoa(n), "tw"))
+		default:
+			g.try(bs("set", kk, "tw", "ex", itoa(n)))
+		}
+	}
+}
+
 func (g *lsGen) c06FollowUp(k, typ string) string {
 	r := g.r
 	switch r.Intn(13) {
@@ -338,6 +362,33 @@ func genC06(r *core.Rand, env *core.Env, run int) *Scenario {
 	for round := 0; round < rounds; round++ {
 		k := g.key()
 		typ := g.c06Create(k)
+		if len(g.keys) >= 2 && r.Bool(0.35) {
+			// twins: the same time-to-live, the same way, one right after the other
+			k2 := g.key()
+			for k2 == k {
+				k2 = g.key()
+			}
+			typ2 := g.c06Create(k2)
+			g.c06AttachTwin(k, typ, k2, typ2)
+			e1, e2 := g.entry(k), g.entry(k2)
+			if e1 != nil && e2 != nil && e1.HasTTL && e2.HasTTL {
+				lo, hi := e1.WinLo, e2.WinHi
+				for _, t := range []time.Time{lo.Add(-eps), lo.Add(eps), lo.Add(hi.Sub(lo) / 4), lo.Add(hi.Sub(lo) / 2), hi.Add(-eps), hi.Add(eps)} {
+					if !r.Bool(0.75) {
+						continue
+					}
+					g.sleepTo(t)
+					if r.Bool(0.7) {
+						g.c06Probe(k2, typ2)
+						g.c06Probe(k, typ)
+					} else {
+						g.c06Probe(k, typ)
+						g.c06Probe(k2, typ2)
+					}
+				}
+				continue
+			}
+		}
 		g.c06Attach(k, typ)
 		for i := 0; i < r.Intn(3); i++ {
 			typ = g.c06FollowUp(k, typ)
